@@ -27,6 +27,7 @@ fn main() {
     let args: Vec<String> = std::env::args().collect();
     if args.len() < 2 { eprintln!("usage: kverif <ID> [--tier quick|thorough] [--seed N] [--replay FILE] [--root DIR]"); std::process::exit(2); }
     let id = args[1].clone();
+    let mut triage: Option<String> = None;
     let (mut tier, mut seed, mut replay, mut root) = (Tier::Quick, std::env::var("VERIF_SEED").ok().and_then(|s| s.parse::<i64>().ok()).map(|x| x as u64).unwrap_or(1), None::<String>, PathBuf::from(std::env::var("VERIF_ROOT").unwrap_or_else(|_| "/verif".into())));
     let mut i = 2;
     while i < args.len() {
@@ -35,6 +36,7 @@ fn main() {
             "--seed" => { seed = args[i + 1].parse::<i64>().map(|x| x as u64).unwrap_or(1); i += 1; }
             "--replay" => { replay = Some(args[i + 1].clone()); i += 1; }
             "--root" => { root = PathBuf::from(&args[i + 1]); i += 1; }
+            "--triage" => { triage = Some(args[i + 1].clone()); i += 1; }
             _ => {}
         }
         i += 1;
@@ -47,6 +49,8 @@ fn main() {
         std::env::set_var("KVERIF_REPLAY_PATH", p);
         (v["sub"].as_str().unwrap_or("").to_string(), v["case"].clone())
     });
+    if let Some(t) = triage { std::process::exit(core::triage(&id, &root, &t)); }
+    if let Ok(t) = std::env::var("KVERIF_TRACE_FILE") { if replay.is_none() { core::trace_enable(&t); } }
     core::install_panic_hook();
     if let Err(e) = kspec::selftest() { eprintln!("{}", e); std::process::exit(2); }
     // watchdog: a hang is inconclusive (exit 2), never a pass and never a violation
